@@ -8,6 +8,39 @@ CHECKS = {
    technique="deterministic simulation of xz writer call histories behind a simulated sink (seeded search over Write partitions, block-rotation instants, zero-length writes, redundant Close / use after Close); library reader over the recorded sink history as oracle; minimised JSON scenario replay",
    text="Seeded exploration of call histories x configurations x payload families; every run monitors the API contract call by call and decodes the recorded sink image with the library reader. A clean batch is evidence over the runs executed, not a proof; the history axis (partition, rotation, post-Close calls) is what the simulator owns, input x configuration is sampled.",
    note="Trusts: Go runtime, the harness's payload recipes, the library's own xz.Reader as decoder (independent validity is C02). Sink never fails here (C09)."),
+
+ "C02": dict(engine="wsim", cat="exploration", ref="DESIGN.md §4 C02",
+   technique="deterministic simulation of xz writer call histories; every recorded sink history is judged by an independent executable model of the .xz/LZMA2 format (own parser and decoder written from the specifications) and by liblzma through cgo",
+   text="Seeded exploration over configurations x payloads x Write partitions; each emitted image is parsed, decoded and cross-checked (CRCs, sizes, index, backward size, padding, checks, dictionary code minimal and covering all distances, exact BlockSize for non-last blocks) by refxz/reflzma and liblzma. Oracle disagreement is exit 2, never a violation.",
+   note="Trusted base: verif/ref/refxz + reflzma (independent of /repo; agree with liblzma and the reference encoder on generated streams), liblzma 5.4.1 when it links, Go std hashes. No fault dimension (validity under faults is checked inside C09)."),
+ "C03": dict(engine="rsim", cat="exploration", ref="DESIGN.md §4 C03",
+   technique="deterministic simulation: xz reader fed by a simulated foreign peer (specification-driven generator of arbitrary legal op/chunk/container layouts, liblzma encoder, frozen xz-utils corpus) behind a fragmenting source with seeded Read schedules and reader DictCap; three-way oracle",
+   text="Seeded exploration of the language of valid LZMA2-only .xz streams (generated from the grammar of the format, liblzma-encoded, corpus) x reader DictCap x fragmentation x Read schedule. Output must equal generator content and reference decoder output, with clean EOF, for every DictCap.",
+   note="Trusted base: refenc/refxz/reflzma, liblzma. The stream space is sampled; the simulator owns fragmentation, schedule and DictCap."),
+ "C06": dict(engine="wsim", cat="exploration", ref="DESIGN.md §4 C06",
+   technique="deterministic simulation of classic-LZMA writer call histories incl. the explicit-size contract (surplus and deficit histories), header re-parsed independently, library reader as decoder",
+   text="Seeded exploration over all 225 property codes, DictCap/BufSize corners, both matchers, marker/size/size+marker, Size=len incl. 0, Write partitions, sinks with and without io.ByteWriter; contract monitored call by call (surplus refused with n==remaining, deficit fails Close), header truthfulness, round trip through lzma.Reader.",
+   note="Trusts the library's lzma.Reader as decoder (foreign decoders: C07). Calls after Close unconstrained for this writer."),
+ "C07": dict(engine="wsim+rsim", cat="exploration", ref="DESIGN.md §4 C07",
+   technique="deterministic simulation both ways: writer histories decoded by the independent reference decoder and liblzma; streams of a simulated foreign peer (spec-driven generator in all three termination modes, liblzma alone encoder, corpus) read by lzma.Reader under seeded fragmentation and Read schedules",
+   text="Writer side: C06-style histories restricted to lc+lp<=4, output decoded by reflzma (distances bounded by the header dictionary) and liblzma, header truthfulness. Reader side: generated/foreign valid .lzma streams incl. zero-length content, three-way equality.",
+   note="Trusted base: reflzma (applies liblzma's .lzma termination rules), liblzma 5.4.1, refenc."),
+ "C08": dict(engine="wsim", cat="exploration", ref="DESIGN.md §4 C08",
+   technique="deterministic simulation of LZMA2 writer call histories over {Write, Flush, Close, post-Close}: the sink image at every Flush return (= the image a crash right after the acknowledged Flush leaves) is decoded by the reference decoder and Reader2; idle Flush must emit nothing",
+   text="Seeded exploration of histories with Flush biased around the chunk limits, after incompressible segments, twice in a row and on a fresh writer. Invariants at each Flush return (whole chunks, no end chunk, decodes to exactly the bytes written before) and after Close (complete image decodes under Reader2, reflzma, liblzma; later calls fail and emit nothing).",
+   note="Trusted base: reflzma, liblzma. Nothing demanded between flushes. Sink never fails here (C09)."),
+ "C12": dict(engine="rsim", cat="exploration", ref="DESIGN.md §4 C12",
+   technique="deterministic simulation of an append-only file of several writer sessions plus stream padding: exhaustive padding enumeration 0..16 for chains of <=3 streams x SingleStream, seeded longer chains, trailing garbage, under fragmentation and Read schedules; executable model of the concatenation law as oracle",
+   text="The short-chain padding space is enumerated completely (10470 cases); longer chains, mixed writers/checks, empty streams and schedules are seeded. Model: only aligned padding after streams is legal; SingleStream yields exactly the first content and errors iff a byte follows.",
+   note="Enumeration is complete only for the stated sub-space; stream lists are sampled."),
+ "C13": dict(engine="rsim", cat="exploration", ref="DESIGN.md §4 C13",
+   technique="deterministic simulation of reader schedules: seeded Read-length schedules (incl. 0 and 1 bytes, exactly-remaining, remaining+1) x source fragmentation (1-byte, short reads, EOF with data) x post-EOF reads against a sequential byte-stream model, for xz, LZMA and LZMA2 readers",
+   text="The schedule space (caller buffer sizes x source fragmentation x EOF delivery) is what the simulator owns and samples by seed over valid multi-block/multi-chunk/multi-stream streams of the three formats.",
+   note="Streams sampled; a zero-length Read may return (0,nil) any time and (0,EOF) only once all content is delivered."),
+ "C16": dict(engine="rsim+wsim", cat="exploration", ref="DESIGN.md §4 C16",
+   technique="deterministic simulation with a simulated peer sending chunk histories: all chunk-kind sequences up to length 4 and all 256 control bytes in every reachable chunk state realised as concrete streams, seeded longer walks under fragmentation/Read schedules, oracle = format chunk-rule automaton cross-checked per case against reference decoder and liblzma; writer side: chunk headers walked in recorded writer histories",
+   text="Two complete sub-spaces (2800 short sequences, 5x256 control bytes) inside a seeded exploration (walks up to 14 chunks, writer histories of the LZMA2 and xz writers). Legal => decoded content equals generator content; illegal at chunk j => non-EOF error and no byte beyond the chunks before j.",
+   note="Exploration level overall; the enumerated sub-spaces are reported under exhaustive_subspaces. Legality automaton cross-checked against reflzma and liblzma on every case."),
 }
 
 NOT_APPLICABLE = {
